@@ -147,6 +147,31 @@ def flip_variants(sc, rng, max_subsets=6):
     return out
 
 
+def add_late(sc, rng):
+    """the same scenario, but built in two stages separated by inspection calls: some requirement edges are added only
+    after the inspection (`late.edges`), some others exist during the inspection and are removed before the run
+    (`late.removed`); `sc["tree"]` stays the final graph"""
+    sc = copy.deepcopy(sc)
+    edges, removed = [], []
+    for n, _ in walk(sc["tree"]):
+        kids = n.get("children") or []
+        for k in kids:
+            for r in k.get("req", []):
+                if rng.random() < 0.6:
+                    edges.append([k["name"], r])
+        # pairs that are NOT requirements of the final graph, present only while the graph is inspected
+        names = [k["name"] for k in kids]
+        for i, k in enumerate(kids):
+            for r in names[:i]:
+                if r not in k.get("req", []) and rng.random() < 0.15:
+                    removed.append([k["name"], r])
+    if not edges and not removed:
+        return None
+    ops = ["exit_jobs", "list", "dot", "check", "succ", "pred"]
+    sc["late"] = dict(edges=edges, removed=removed, inspect=rng.sample(ops, rng.randint(1, 3)))
+    return sc
+
+
 def flatten_variant(sc):
     """C10: (nested tree, flattened twin) for critical nested schedulers without window, timeout, forever jobs,
     zero-time shutdown handlers; returns None when the scenario is outside that class"""
